@@ -176,6 +176,37 @@ def engine_level(ctx):
                 if "act" in L.parse_trace(t2)[0] or L.parse_trace(t2)[1] == "ok":
                     ctx.fail("altered-reply-accepted:%s:%s" % (L.family(c), what),
                              {"engine": eng, "field": what, "client": L.sc_json(c2)}, t2[-200:])
+            # ---- encoding-level edits of the mpint f: the sign-padding octet stripped (RFC 4251: now a DIFFERENT,
+            # negative integer — must abort); extra leading zero octets (the same integer: compared with the model only)
+            if kinds[1] == "m":
+                cpad, spad = c, s
+                for _try in range(6):
+                    raw, _rest = L.raw_fields(bytes([cpad["pkts"][-1][0]]) + cpad["pkts"][-1][1], 3)
+                    if raw[1][:1] == b"\x00":
+                        break
+                    try:
+                        cpad, spad = L.honest(rng, eng, old=old)
+                    except L.HonestFailed:
+                        break
+                raw, _rest = L.raw_fields(bytes([cpad["pkts"][-1][0]]) + cpad["pkts"][-1][1], 3)
+                lt, _lb, lx = cpad["pkts"][-1]
+                variants = [("extra-zero-pad", b"\x00\x00" + raw[1], False)]
+                if raw[1][:1] == b"\x00":
+                    variants.append(("sign-pad-stripped", raw[1][1:], True))
+                    ctx.dist("encoding:f-with-sign-pad")
+                for vname, fbytes, must_abort in variants:
+                    c5 = dict(cpad)
+                    c5["pkts"] = cpad["pkts"][:-1] + [(lt, L.enc_str(raw[0]) + L.enc_str(fbytes) + L.enc_str(raw[2]), lx)]
+                    t5 = L.run_scenario(c5)
+                    scs.append(c5)
+                    meta.append(("encoding", eng, "c", vname))
+                    ctx.case(("encoding", eng, vname, tuple(c5["pkts"])), must_abort)
+                    ctx.dist("encoding:" + vname)
+                    if must_abort and ("act" in L.parse_trace(t5)[0] or L.parse_trace(t5)[1] == "ok"):
+                        ctx.fail("altered-reply-accepted:%s:value-%s" % (L.family(c), vname),
+                                 {"engine": eng, "field": "f", "mutation": vname, "client": L.sc_json(c5)},
+                                 "f sent as %s… (%d octets, top bit set: a negative mpint); the client completed: %s"
+                                 % (fbytes[:6].hex(), len(fbytes), t5[-160:]))
             # ---- structural: each reply field replaced by the EMPTY string (mpint: zero), or the body cut off there
             for idx, what in enumerate(["hostkey", "value", "signature"]):
                 for mode in ("empty", "truncated"):
@@ -557,6 +588,12 @@ def e2e_mitm(ctx, kex, kind, algo, field, rng):
             edited["hostkey"] = f[0]
             hit.append(1)
             return L.rebuild(t, *zip(kinds, f))
+        if field == "value-strip-sign-pad" and d == "s2c" and t == reply_t and kinds[1] == "m":
+            raw, rest = L.raw_fields(payload, 3)
+            if raw[1][:1] != b"\x00":
+                return None  # this f needs no pad: nothing to strip (the caller tries another exchange)
+            hit.append(1)
+            return bytes([t]) + L.enc_str(raw[0]) + L.enc_str(raw[1][1:]) + L.enc_str(raw[2]) + rest
         if field.startswith(("empty-", "cut-")) and d == "s2c" and t == reply_t:
             f = L.split_fields(payload, kinds)
             idx = {"hostkey": 0, "value": 1, "signature": 2}[field.split("-", 1)[1]]
@@ -596,6 +633,9 @@ def e2e_mitm(ctx, kex, kind, algo, field, rng):
         err = e.handshake(timeout=60)
         ctx.case(("e2e-mitm", kex, algo, field), True)
         ctx.dist("e2e-mitm:%s:%s" % (fam, field))
+        if not hit and field == "value-strip-sign-pad":
+            ctx.dist("e2e-mitm:value-strip-sign-pad:not-applicable(f without pad)")
+            return "retry"
         if not hit:
             ctx.disagree("e2e-mitm-did-not-see-packet", case, "edited", "seen %r" % e.mitm.seen)
             return
@@ -909,6 +949,35 @@ def e2e_rekey_changed_key(ctx, kex, plan_name):
         e.close()
 
 
+def mpint_read_facts(ctx):
+    """source facts: the peers' DH values and the gex group are read as SIGNED mpints (`m.get_mpint()`), so that the
+    range tests see the integer RFC 4251 says the field encodes — never through get_binary/get_string + inflate_long"""
+    import ast
+    import os
+    from pv.core import REPO
+
+    want = {("kex_group1.py", "_parse_kexdh_reply"): ["f"], ("kex_group1.py", "_parse_kexdh_init"): ["e"],
+            ("kex_gex.py", "_parse_kexdh_gex_reply"): ["f"], ("kex_gex.py", "_parse_kexdh_gex_init"): ["e"],
+            ("kex_gex.py", "_parse_kexdh_gex_group"): ["p", "g"]}
+    for (fname, fn_name), attrs in want.items():
+        tree = ast.parse(open(os.path.join(REPO, "paramiko", fname), encoding="utf-8").read())
+        fn = next((f for f in ast.walk(tree) if isinstance(f, ast.FunctionDef) and f.name == fn_name), None)
+        if fn is None:
+            ctx.disagree("kex-handler-missing", {"file": fname, "function": fn_name}, "exists", "missing")
+            continue
+        for attr in attrs:
+            assigns = [n for n in ast.walk(fn) if isinstance(n, ast.Assign) and any(
+                isinstance(t, ast.Attribute) and t.attr == attr and isinstance(t.value, ast.Name) and t.value.id == "self"
+                for t in n.targets)]
+            ok = len(assigns) == 1 and ast.unparse(assigns[0].value) == "m.get_mpint()"
+            if not ok:
+                ctx.disagree("peer-value-not-read-as-signed-mpint", {"file": fname, "function": fn_name, "value": attr},
+                             "self.%s = m.get_mpint()" % attr, "; ".join(ast.unparse(a) for a in assigns)[:200] or "no assignment")
+        if "inflate_long" in ast.unparse(fn):
+            ctx.disagree("peer-value-decoded-by-hand", {"file": fname, "function": fn_name}, "no inflate_long in the handler", "inflate_long used")
+    ctx.dist("source:peer-values-read-with-get_mpint")
+
+
 def newkeys_source_facts(ctx):
     """source fact: Transport._parse_newkeys calls self._activate_inbound() as a TOP-LEVEL statement (no branch can
     skip it and still reach the completion statements), before completion_event.set(), with no return before it."""
@@ -1063,8 +1132,15 @@ def end_to_end(ctx):
                 plan.append((k,) + KEY_ALGOS[(i + 2 * j) % 7] + (f,))
         plan.append((rng.choice(["nistp384", "nistp521", "group1", "group14", "gex"]),) + KEY_ALGOS[rng.randrange(7)]
                     + ("empty-hostkey",))
+    # the sign-padding octet of f stripped in flight (classic DH and gex): a different, negative integer
+    for j, k in enumerate(["group14-256", "group1", "group16", "gex256"] + (["group14", "gex"] if ctx.thorough else [])):
+        plan.append((k,) + KEY_ALGOS[(2 * j + 1) % 7] + ("value-strip-sign-pad",))
     for kex, kind, algo, f in plan:
-        e2e_mitm(ctx, kex, kind, algo, f, rng)
+        for _try in range(8):
+            if e2e_mitm(ctx, kex, kind, algo, f, rng) != "retry":
+                break
+        else:
+            ctx.disagree("e2e-mitm-no-padded-f-in-8-exchanges", {"kex": kex}, "an f with its top bit set", "none")
     # a key of ANOTHER type than negotiated, its signature labelled with the negotiated name (and the converses)
     names = list(CURVE_HASH)
     kexes = ["c25519", "nistp256", "group14-256", "gex256", "group16", "nistp384", "group1", "nistp521", "gex", "group14"]
@@ -1202,7 +1278,8 @@ def run(ctx):
                 "re-exchanges with a CHANGED server key (another type after a change of the client's preference, a rotated key "
                 "of the same type, mixed; valid signatures) with the reported key and an independent signature check after "
                 "every exchange; engine scenarios run with no / the same / another host key already on record. "
-                "a rogue server omitting parts of a re-exchange (bare NEWKEYS; KEXINIT then NEWKEYS). "
+                "encoding-level edits of f (sign-padding octet stripped = another integer, extra zero octets) at engine level and in "
+                "flight for group1/14/16/gex; a rogue server omitting parts of a re-exchange (bare NEWKEYS; KEXINIT then NEWKEYS). "
                 "Transport.connect over all 64 option combinations x 2 server key types (hostkey absent / same / "
                 "other of the same type / other type; pkey, password, gss_auth, gss_kex) with recording auth_* "
                 "methods. distinct = distinct (engine, role, packets) / (kex, algorithm, edit); non-trivial = a complete "
@@ -1218,6 +1295,7 @@ def run(ctx):
     set_k_h_level(ctx)
     host_key_publication_facts(ctx)
     newkeys_source_facts(ctx)
+    mpint_read_facts(ctx)
     connect_level(ctx)
     end_to_end(ctx)
 
